@@ -112,6 +112,8 @@ def case_features(case, objs=None) -> List[str]:
         return sorted(f)
     if A.not_under_not(c):
         f.add("not_under_not")
+    if case.get("earlier_queries_sharing_comparisons"):
+        f.add("comparison_objects_used_in_earlier_queries")
     if case.get("share_terms"):
         seen, rep = set(), False
         occ = [("truth", n[1]) for n in A.walk(c) if n[0] == "truth"] + [("value", t) for t in A.terms_of(c)] + \
@@ -338,4 +340,9 @@ def render_query(case):
             "cond": A.r_cond(case["cond"]) if case.get("cond") is not None else None,
             "split_top": case.get("split_top"),
             "select": f"{case.get('desc')}[{', '.join(A.r_term(t) for t in case['sel'])}]", "quant": case.get("quant", "an"),
-            **({"earlier_query_sharing_the_expression_objects": A.r_cond(case["prelude"])} if case.get("prelude") is not None else {})}
+            **({"earlier_query_sharing_the_expression_objects": A.r_cond(case["prelude"])} if case.get("prelude") is not None else {}),
+            **({"earlier_queries_sharing_the_comparison_objects": [
+                A.r_cond(e["cond"]) + ("" if e.get("take") is None else f" [given up after {e['take']} result(s)]")
+                for e in case["earlier_queries_sharing_comparisons"]],
+                "all_queries_built_before_any_is_evaluated": bool(case.get("all_queries_built_before_any_is_evaluated"))}
+               if case.get("earlier_queries_sharing_comparisons") else {})}
